@@ -430,8 +430,8 @@ func (c *Ctx) RuleLock(pkg *ssa.Package, varName, muName string) {
 				// dominated by Lock on mu, and fn has deferred Unlock on mu
 				if !c.lockDominates(fn, in, mu) {
 					c.add("violated", "C19.lock", fn, in.Pos(), "access to "+varName+" not dominated by "+muName+".Lock()")
-				} else if !c.hasDeferredUnlock(fn, mu) {
-					c.add("violated", "C19.lock", fn, in.Pos(), "no deferred "+muName+".Unlock()")
+				} else if !c.hasDeferredUnlock(fn, mu) && !c.unlockOnEveryPath(fn, in, mu) {
+					c.add("violated", "C19.lock", fn, in.Pos(), "the mutex is not released on every path after the access (no deferred "+muName+".Unlock(), and some path to a return passes no Unlock)")
 				} else {
 					c.add("discharged", "C19.lock", fn, in.Pos(), "access to "+varName+" under "+muName)
 				}
@@ -715,4 +715,52 @@ func (c *Ctx) RuleTableConst(rule string, g *ssa.Global) {
 		c.addc("discharged", rule, nil, g.Pos(), "const "+g.Name(), "table "+g.Pkg.Pkg.Name()+"."+g.Name()+" is written only by package initialisation", "")
 		c.Out[len(c.Out)-1].Site = g.Pkg.Pkg.Name() + "." + g.Name()
 	}
+}
+
+// unlockOnEveryPath: every path from the access to a return passes a (non-deferred) Unlock of mu, and no access to
+// the protected state follows that Unlock on the path (checked by the caller's dominance test for each access).
+func (c *Ctx) unlockOnEveryPath(fn *ssa.Function, at ssa.Instruction, mu *ssa.Global) bool {
+	hasUnlockAfter := func(b *ssa.BasicBlock, from int) bool {
+		for _, in := range b.Instrs[from:] {
+			if _, ok := in.(*ssa.Call); ok && isMutexCall(in, mu, "Unlock") {
+				return true
+			}
+		}
+		return false
+	}
+	start := 0
+	for i, in := range at.Block().Instrs {
+		if in == at {
+			start = i
+		}
+	}
+	if hasUnlockAfter(at.Block(), start) {
+		return true
+	}
+	seen := map[*ssa.BasicBlock]bool{}
+	var rec func(b *ssa.BasicBlock) bool
+	rec = func(b *ssa.BasicBlock) bool {
+		if seen[b] {
+			return true
+		}
+		seen[b] = true
+		if hasUnlockAfter(b, 0) {
+			return true
+		}
+		if len(b.Succs) == 0 {
+			return false // reached an exit without unlocking
+		}
+		for _, s := range b.Succs {
+			if !rec(s) {
+				return false
+			}
+		}
+		return true
+	}
+	for _, s := range at.Block().Succs {
+		if !rec(s) {
+			return false
+		}
+	}
+	return len(at.Block().Succs) > 0
 }
